@@ -132,9 +132,26 @@ def _valid_property(sim):
     return gen.render_property(p)
 
 
+EDGE_SPACES = ('\u00a0', '\u3000', '\u2028', '\u2029', '\u0085', '\u000b', '\u001c', '\u2003', '\u202f', '\u1680', '\ufeff', '\u200b')
+
+
 def _invalid_text(sim, base):
     k = sim.weighted('invkind', [(3, 'syntax'), (2, 'type'), (2, 'sanity'), (1.5, 'unknownfun'), (1.5, 'dupmeta'),
-                                 (1, 'empty'), (1, 'unicode'), (2.5, 'later_invalid')])
+                                 (1, 'empty'), (1, 'unicode'), (2.5, 'later_invalid'), (2, 'edge_space')])
+    if k == 'edge_space':
+        # a valid text plus ONE character that looks like white space and is none to the grammar
+        # (pasted from a web page or a PDF, typed with a CJK input method), at the end, the start or
+        # between two tokens; whether it parses is the library parser's call, not assumed here
+        ch = sim.pick('spacech', EDGE_SPACES)
+        where = sim.weighted('spacewhere', [(6, 'end'), (2, 'end_nl'), (1.5, 'start'), (1.5, 'inside')])
+        if where == 'end':
+            return base + ch, k
+        if where == 'end_nl':
+            return base + ch + '\n', k
+        if where == 'start':
+            return ch + base, k
+        cut = base.find(' ')
+        return (base[:cut] + ch + base[cut:] if cut > 0 else base + ch), k
     if k == 'later_invalid':
         # valid properties first, the offending one last (or in the middle)
         bad = sim.pick('badprop', ('globally: no', 'globally: no a { (x + True) > 1 }', 'globally: no a { x > @Z.x }',
@@ -170,6 +187,9 @@ def gen_scenario(seed, cfg):
             text = first + '\n' + (first if sim.coin('exactdup', 0.4) else gen.sibling_text(sim, first.split('\n')[-1]))
         if sim.coin('crlf', 0.1):
             text = text.replace('\n', '\r\n')
+    if sim.coin('ascii_edges', 0.15):
+        # white space the grammar does know, at the edges
+        text = sim.pick('lead', ('', '', '\n', '  ', '\t')) + text + sim.pick('trail', ('\n', '\n\n', ' ', '\t\n', '\f', ' \r\n'))
     content_kind = 'valid'
     if not valid:
         text, content_kind = _invalid_text(sim, text)
@@ -394,9 +414,13 @@ def run_once(sc, faults):
                 f[1] in ('read', 'open') and f[2]['kind'] == 'errno' for f in fs.fired)
             o.designated = designated
             o.opened_ids = list(fs.opened_ids)
-            if not fs.fired and not any(c[1] in ('read', 'open') for c in fs.calls):
-                # no file fault and the program never opened anything through the seam: the text it
-                # was given is the designated file's text, whether or not it got to it
+            errno_fired = any(f[1] in ('read', 'open') and f[2]['kind'] == 'errno' for f in fs.fired)
+            if not errno_fired and not any(c[1] == 'read' for c in fs.calls) and all(i == designated for i in fs.opened_ids):
+                # no error injected at an open or read, and no read went through the seam (the program
+                # never got that far, or it reads by a call the seam does not own - mmap, a FileIO
+                # bound before the seam was installed): the text it was given is what the designated
+                # file holds (after an injected replacement, if any). A seam that sees nothing must not
+                # turn into a verdict.
                 o.delivered = disk_text(arg_path)
             elif any(i != designated for i in fs.opened_ids):
                 # the program read some other file than the one the operating system designates for
